@@ -7,7 +7,7 @@ from __future__ import annotations
 import impl
 
 RULE = ("random programs over {helper call, raise, with <solver>: body, try: body except} with depth <= 6 (thorough 8), "
-        "3 solvers used re-entrantly, 14 helper kinds (put with and without an immediate connection); distinct = distinct program tree; non-trivial = contains a "
+        "3 solvers used re-entrantly, 15 helper kinds (put with and without an immediate connection); distinct = distinct program tree; non-trivial = contains a "
         "nested with-block and at least one helper")
 TRUSTED = ["translator harness/translate/tables.py (syntactic read of __enter__/__exit__ and of `sol_list[...]` uses)",
            "CPython's `with` protocol (__exit__ is called on normal and exceptional exit; exceptions propagate unless suppressed)"]
@@ -21,7 +21,7 @@ class Boom(Exception):
 
 HELPERS = ["Model.put", "Solver.put", "putpin", "Pin.put", "raise_pins", "set_default_params",
            "update_default_params", "add_param", "solve", "add_structure_to_monitors", "Structure.raise_pins", "connect",
-           "Model.put+connect", "Solver.put+connect"]
+           "Model.put+connect", "Solver.put+connect", "connect_all"]
 
 
 def gen_prog(rng, depth, nsolvers=3, p_raise=0.12):
@@ -114,6 +114,15 @@ class World:
             inner.add_structure(ist)
             inner.map_pins({L.Pin(f"in{c}a"): (ist, list(im.pin_dic)[0]), L.Pin(f"in{c}b"): (ist, list(im.pin_dic)[1])})
             inner.put()
+        elif name == "connect_all":
+            # two mode-expanded two-ports present in the active solver, wired by base name through the module-level helper
+            ma, mb = two_port().expand_mode(["TE", "TM"]), two_port().expand_mode(["TE", "TM"])
+            a, b = L.Structure(model=ma), L.Structure(model=mb)
+            tgt = self.solvers[active if active is not None else 0]
+            tgt.add_structure(a)
+            tgt.add_structure(b)
+            before = self.fingerprints()
+            L.connect_all(a, sorted({p.basename for p in ma.pin_dic})[1], b, sorted({p.basename for p in mb.pin_dic})[0])
         elif name == "Model.put+connect":
             # place and wire in one call: the target structure is present in every solver, so the call is valid wherever it lands
             m, st = everywhere()
